@@ -115,7 +115,7 @@ class Explorer(object):
         detail = v[3] if len(v) > 3 else None
         if clause == 'ENGINE':
             raise core.EngineError('%s at %s' % (observed, hist))
-        mh = self.minimise(hist, clause)
+        mh = v[4] if len(v) > 4 and v[4] is not None else self.minimise(hist, clause)
         key = '%s|%s' % (clause, self.hist_key(mh))
         res.violation(clause, key, dict(kind='history', scenario=self.label, history=mh,
                                         found_at=hist), observed, expected, detail)
@@ -149,6 +149,19 @@ class Explorer(object):
                 if self.violates(cand, clause):
                     hist = cand
                     changed = True
+                    break
+            if changed or len(hist) < 3:
+                continue
+            # pairs (e.g. remove X ... re-append X must go together)
+            n = len(hist)
+            for i in range(n - 1):
+                for j in range(i + 1, n):
+                    cand = [op for k, op in enumerate(hist) if k not in (i, j)]
+                    if self.violates(cand, clause):
+                        hist = cand
+                        changed = True
+                        break
+                if changed:
                     break
         return hist
 
@@ -188,7 +201,12 @@ def _expand(hists):
                         [v[0] for v in viol3] != [v[0] for v in viol]:
                     raise core.EngineError('ENGINE-NONDETERMINISM: history %r observed differently '
                                            'on two executions' % (h2,))
-            out.append((h2, ch, [tuple(v) for v in viol], obs))
+            viol = [tuple(v) for v in viol]
+            if viol:
+                # minimise in the worker (parallel); carried as 5th field
+                viol = [(v[0], v[1], v[2], v[3] if len(v) > 3 else None,
+                         ex.minimise(h2, v[0]) if v[0] != 'ENGINE' else None) for v in viol]
+            out.append((h2, ch, viol, obs))
     return out
 
 
